@@ -86,7 +86,7 @@ func (p *Prog) skipFieldsOK() (bool, []string) {
 					ct := squash(p.text(x.Cond))
 					if ct == "err!=nil" {
 						errIf = x
-					} else if strings.Contains(ct, "hf.Empty()") {
+					} else if strings.Contains(ct, "hf.Empty()") || strings.HasSuffix(ct, ".fieldDecoded") {
 						updIf = x
 					}
 				case *ast.IncDecStmt:
@@ -132,7 +132,7 @@ func (p *Prog) skipFieldsOK() (bool, []string) {
 					fail("the error branch has more than the cut-field test and the connection error")
 				}
 			}
-			if updIf == nil || !p.isConjunctionOf(updIf.Cond, "len(b)==0", "hf.Empty()") || len(updIf.Body.List) != 1 {
+			if updIf == nil || !isNoFieldTest(p, updIf.Cond) || len(updIf.Body.List) != 1 {
 				fail("the loop no longer stops, without counting a field, exactly when the fragment ended in a dynamic table size update")
 			} else if b, ok := updIf.Body.List[0].(*ast.BranchStmt); !ok || b.Tok != token.BREAK {
 				fail("the size-update test no longer breaks the loop")
